@@ -220,8 +220,9 @@ def connMessageV1 (dec : Int → Bytes → Option Bytes) (bs : Bytes) : Option (
       | none => none
       | some (rec, rest) => some ([rec], rest)
     else
-      -- "discard next four bytes...will be -1 to indicate null key"
-      match takeN 4 r with
+      -- `r.discardBytes()`: the wrapper's key — null as producers write it, or any bytes — is passed over
+      -- (fix C05-D31; before: `discardN(4)`, which assumed the null key)
+      match connBytes r with
       | none => none
       | some (_, r1) =>
         match readI32 r1 with
